@@ -398,6 +398,19 @@ pub fn cli() -> Cli {
     Cli { id, tier, replay: None }
 }
 
+/// Packet kinds with a second Cookie Request in a row left out: the authentication Cookie Request is optional in the
+/// protocol order ("optionally", says C06), so a router may make it where the present one does not.
+pub fn one_cookie_request<'a>(v: &[&'a str]) -> Vec<&'a str> {
+    let mut out: Vec<&'a str> = vec![];
+    for k in v {
+        if *k == "LoginCookieRequest" && out.last() == Some(&"LoginCookieRequest") {
+            continue;
+        }
+        out.push(*k);
+    }
+    out
+}
+
 pub fn hex(b: &[u8]) -> String {
     b.iter().map(|x| format!("{x:02x}")).collect()
 }
